@@ -1236,4 +1236,70 @@ example : paidAfter (withdraw exState 0 [1] [(2, 10)]) 1 2 = some 10 ∧ paidAft
 
 example : Collect.withdraw { kfState with contribs := [{ coll := 0, acct := 5, bonds := fun _ => 0, locking := 11, donation := 0, donationLock := false }] } 5 0 10 = .error .err := rfl
 
+/-! ## collectives `EndBlocker` (`Collect.endBlock`): rewards go to the spending pools, the bonds stay -/
+
+/-- with weight 1 the portion of an amount is the amount: a collective with ONE spending pool of weight 1 forwards exactly
+the rewards it claimed (nothing of the bonds that sit in the same account) -/
+theorem portion_of_full_weight (a : Nat) : Collect.portionOf a Dec.one = (a : Int) := by
+  rw [portionOf_eq]
+  exact chopRound_mul_P (a : Int)
+
+/-- every portion is within one half of its exact share: `2·P·portion ≤ 2·a·w + P` -/
+theorem portion_upper (a : Nat) (w : Int) : 2 * P * Collect.portionOf a w ≤ 2 * ((a : Int) * w) + P := by
+  rw [portionOf_eq]; exact chopRound_upper _
+
+/-- the distribution of rewards writes no collective and no contributor record, and leaves the network parameters alone -/
+theorem distribute_keeps_records (s s' : Collect.State) (c : Collect.Coll) (h : Collect.distribute s c = .ok s') :
+    s'.colls = s.colls ∧ s'.contribs = s.contribs := by
+  have dep : ∀ (l : List (Nat × Int)) (t t' : Collect.State) (frm : Addr) (coins : Amt),
+      Collect.depositPools t frm coins l = .ok t' → t'.colls = t.colls ∧ t'.contribs = t.contribs := by
+    intro l
+    induction l with
+    | nil => intro t t' frm coins h; simp only [Collect.depositPools, Except.ok.injEq] at h; subst h; exact ⟨rfl, rfl⟩
+    | cons e rest ih =>
+      intro t t' frm coins h
+      obtain ⟨p, w⟩ := e
+      unfold Collect.depositPools at h
+      split at h
+      · cases h
+      · split at h
+        · exact ih _ _ _ _ h
+        · split at h
+          · cases h
+          · have := ih _ _ _ _ h
+            exact this
+  have clm : ∀ (t t' : Collect.State) (a : Addr) (x : Amt), Collect.claimRewards t a = .ok (t', x) →
+      t'.colls = t.colls ∧ t'.contribs = t.contribs := by
+    intro t t' a x h
+    unfold Collect.claimRewards at h
+    split at h
+    · cases h
+    · simp only [Except.ok.injEq, Prod.mk.injEq] at h
+      obtain ⟨rfl, _⟩ := h
+      exact ⟨rfl, rfl⟩
+  unfold Collect.distribute at h
+  split at h
+  · cases h
+  · rename_i s1 coins h1
+    split at h
+    · cases h
+    · rename_i s2 h2
+      split at h
+      · cases h
+      · rename_i s3 dcoins h3
+        split at h
+        · cases h
+        · simp only [Except.ok.injEq] at h
+          subst h
+          have a1 := clm _ _ _ _ h1
+          have a2 := dep _ _ _ _ _ h2
+          have a3 := clm _ _ _ _ h3
+          exact ⟨by show s3.colls = _; rw [a3.1, a2.1, a1.1], by show s3.contribs = _; rw [a3.2, a2.2, a1.2]⟩
+
+/-- … but with several weighted pools the rounded portions can add up to MORE than the rewards claimed - the excess is
+taken from the bonds in the same account: 7 units of reward, two pools of weight one half, portions 4 + 4
+(finding `C18/collectives-distribution/rounded-portions-exceed-rewards`) -/
+theorem distribution_rounding_counterexample :
+    Collect.portionOf 7 (Dec.one / 2) + Collect.portionOf 7 (Dec.one / 2) = 8 := by decide
+
 end Sekai.Props.C18
